@@ -72,6 +72,7 @@ class Executor(object):
         self.loop_ids = {}  # id(ast loop node of the root function) -> ordinal in source order
         self.inlined = set()
         self.used_contracts = set()
+        self.test_outcomes = {}        # (file, text of an `if` test) -> outcomes seen: "T" / "F" (a constant) / "sym"
         self.used_models = set()
         self.prop = None
         models.bind(self)
@@ -1441,7 +1442,13 @@ class Executor(object):
             if tag != "ok":
                 res.append((s, tag, c))
                 continue
-            for (s2, b) in self.branch(s, self.truth(s, c)):
+            cond = tm.lift(self.truth(s, c))
+            try:
+                key_ = (getattr(fr.module, "relpath", "?"), ast.unparse(node.test))
+                self.test_outcomes.setdefault(key_, set()).add(("T" if tm.cval(cond) else "F") if tm.is_const(cond) else "sym")
+            except Exception:
+                pass
+            for (s2, b) in self.branch(s, cond):
                 res.extend(self.block(node.body if b else node.orelse, s2, fr))
         return res
 
